@@ -60,7 +60,11 @@ EXPECTED_PROBES = ['judged', 'expected_verified', 'expected_rejected', 'header_a
                    'pos_bit_above_branch_accepted', 'witness_only_alteration_accepted', 'row_checked', 'sync_path_judged',
                    'direct_judged', 'via_get_merkle', 'odd_level_block', 'single_tx_block', 'height_not_positive',
                    'recorded_height_differs_from_dict_both_present', 'ckpt_on_demand_fetch', 'ckpt_unaligned_fetch',
-                   'ckpt_verified_in_missing_chunk', 'ckpt_sync_path_judged'] + \
+                   'ckpt_verified_in_missing_chunk', 'ckpt_sync_path_judged',
+                   'reorg', 'reorg_followed', 'reorg_lowest_block_holds_cached_verified_tx', 'reorg_via_tip_notification',
+                   'reorg_via_get_headers', 'reorg_tx_moved', 'reorg_tx_same_height', 'reorg_tx_to_mempool',
+                   'cached_path_fetch', 'cached_path_hit', 'cached_path_judged', 'cached_path_refetched_after_reorg',
+                   'rows_checked_after_reorg'] + \
                   ['mut_' + k for k in MUT_KINDS]
 MAX_BUDGET_FRACTION = 0.02
 
@@ -140,7 +144,7 @@ def _deep_chain(r, n, big):
 
 def gen(run_seed, tier):
     r = stream('C08.gen', run_seed)
-    family = r.choices(['byzantine', 'byzantine_faulty', 'checkpointed'], [65, 20, 15])[0]
+    family = r.choices(['byzantine', 'byzantine_faulty', 'checkpointed', 'reorg'], [52, 18, 14, 16])[0]
     big = tier != 'quick'
     n_blocks = r.randint(2, 5) if not big else r.randint(3, 9)
     if family == 'checkpointed':
@@ -154,6 +158,8 @@ def gen(run_seed, tier):
         'exec_delay': r.choice([[0.0, 0.002], [0.0, 0.05]]),
         'fault_p': r.choice([0.05, 0.2]) if family == 'byzantine_faulty' else 0.0,
     }
+    if family == 'reorg':
+        return _gen_reorg(r, sc, big)
     cut = r.choice([n_blocks, n_blocks, n_blocks - 1, r.randint(0, n_blocks)])   # blocks >= cut: header not yet delivered
     ops = []
     n = 0
@@ -188,6 +194,67 @@ def gen(run_seed, tier):
     ops.append({'op': 'headers', 'n': n}); n += 1
     probes(r.randint(3, 8) if not big else r.randint(10, 30))
     ops.append({'op': 'stage', 'n': n, 'wait': True, 'spread': 0.0, 'dup': 0.0, 'stale': 0.0}); n += 1
+    sc['ops'] = ops
+    return sc
+
+
+def _gen_reorg(r, sc, big):
+    """History family: populate the verified-tx cache and the rows, replace the hub's last k blocks, let the
+    wallet follow, ask again."""
+    sc['latency'] = r.choice(['fast', 'lan'])
+    sc['fault_p'] = r.choice([0.0, 0.0, 0.05])
+    ops = [{'op': 'start', 'n': 0}]
+    n = 1
+    first = True
+
+    def mostly_genuine():
+        return {'kind': 'genuine'} if r.random() < 0.65 else _mut(r, allow_tx_bytes=False)
+
+    def blocks(k):
+        nonlocal n, first
+        for _ in range(k):
+            size = r.choice([1, 2, 3, 4, 5, 7, 8, 9, 16])
+            for _ in range(min(size - 1, r.choice([0, 1, 1, 2]))):
+                t = base._tx(r, 'standard', n, first)
+                t['mut'] = mostly_genuine()
+                ops.append(t); n += 1
+                first = False
+            ops.append({'op': 'block', 'n': n, 'size': size, 'hdr': True}); n += 1
+
+    def cached(again):
+        nonlocal n
+        ops.append({'op': 'cached_fetch', 'n': n, 'again': again,
+                    'picks': [[r.choice([0, 0, 0, 1, 1, 2, 3]), round(r.random(), 3)] for _ in range(r.randint(2, 6))],
+                    'wallet_txs': r.random() < 0.8}); n += 1
+
+    def stage():
+        nonlocal n
+        ops.append({'op': 'stage', 'n': n, 'wait': True, 'spread': r.choice([0.0, 0.05]), 'dup': 0.0,
+                    'stale': 0.0}); n += 1
+
+    blocks(r.randint(2, 4))
+    stage()
+    for _ in range(r.choice([1, 1, 2]) if not big else r.randint(1, 4)):
+        cached(False)
+        if r.random() < 0.3:
+            blocks(1)
+            if r.random() < 0.5:
+                stage()
+            cached(False)
+        k = r.choice([1, 1, 1, 2, 2, 3])
+        ops.append({'op': 'reorg', 'n': n, 'k': k, 'extra': r.choice([1, 1, 1, 2, 0] if k > 1 else [1, 1, 1, 2]),
+                    'notify': r.random() < 0.75}); n += 1
+        if r.random() < 0.4:
+            blocks(1)                      # the next block of the new branch (its header makes the wallet catch up)
+        ops.append({'op': 'headers', 'n': n}); n += 1
+        cached(True)
+        stage()
+        cached(True)
+        for _ in range(r.randint(1, 3)):
+            ops.append({'op': 'probe', 'n': n, 'block': round(1 - r.random() * 0.5, 4), 'index': round(r.random(), 4),
+                        'via': r.choice(['batch', 'request', 'verify', 'verify_given']), 'mempool': False,
+                        'save': False, 'mut': _mut(r)}); n += 1
+    stage()
     sc['ops'] = ops
     return sc
 
@@ -261,6 +328,9 @@ def execute(scenario, keep_trace=False):
     mut_of = {}                 # hub txid -> mutation kind currently assigned
     judged = []                 # keeps (tx object, expected) alive: id() keys below stay unique
     expected_by_obj = {}
+    proof_by_obj = {}           # id(tx object) -> (proof it was judged with, number of hub reorgs at that time)
+    cached_requested = []       # txids asked through the cached path so far
+    probe_saved = set()         # txids whose row was written by a direct probe of the harness (no address behind it)
     last_saved = {}             # product txid -> (expected verdict, mutation kind) of the object saved last
 
     checkpointed = {'on': False, 'missing_at_entry': set()}
@@ -347,6 +417,7 @@ def execute(scenario, keep_trace=False):
             run.probes['witness_only_alteration_accepted'] += 1
         judged.append((tx, expected))
         expected_by_obj[id(tx)] = (expected, kind, remote_height, n_headers)
+        proof_by_obj[id(tx)] = (served, len(hub.reorgs))
         run.ev('verify', tx.id[:12], remote_height, n_headers, kind, reason, expected, got)
         if got != expected:
             detail = (f'tx {tx.id[:16]} recorded height={remote_height} (told {told_height}) local_headers={n_headers} '
@@ -366,6 +437,8 @@ def execute(scenario, keep_trace=False):
     def observed_save(txs, address, txhash, history):
         txs = list(txs)
         for tx in txs:
+            if address != 'not-a-wallet-address':
+                probe_saved.discard(tx.id)
             e = expected_by_obj.get(id(tx))
             if e is not None:
                 last_saved[tx.id] = e
@@ -409,7 +482,160 @@ def execute(scenario, keep_trace=False):
             run.notes.append(f'not quiescent at {where}')
             run.outcome = 'budget'
             return False
-        return check_rows(where) is None
+        if check_rows(where) is not None:
+            return False
+        return check_rows_after_reorg(where) is None
+
+    def headers_follow_hub():
+        n = len(W.headers)
+        if n != len(hub.blocks):
+            return False
+        buf = bytes(W.headers.io.getbuffer()[:n * 112])
+        return buf == b''.join(b.header for b in hub.blocks)
+
+    def check_rows_after_reorg(where):
+        """After a reorganisation the wallet followed, once every address whose status changed has been
+        re-synced (quiescence after the notification stage): a row still verified at height H must belong to a
+        transaction of the hub's CURRENT block at H, i.e. a proof to the local header at H exists."""
+        if not hub.reorgs or state['started'] is False or not headers_follow_hub():
+            return None
+        if hub.changed_addresses():
+            return None                      # some address has not been told about its new status yet
+        for txid, is_verified, height in W.sql("select txid, is_verified, height from tx order by txid"):
+            if not is_verified or txid in probe_saved:
+                continue
+            run.probes['rows_checked_after_reorg'] += 1
+            tx = hub.txs.get(hub.alias.get(txid, txid))
+            if tx is None or tx.height != height:
+                e = last_saved.get(txid)
+                now = 'gone' if tx is None else ('in the mempool' if tx.height is None else f'at height {tx.height}')
+                return run.violation('C08.verified_without_proof', f'{where}: after the reorganisation(s) {hub.reorgs} and '
+                                     f'the re-sync of every changed address the row of tx {txid[:16]} is still verified at '
+                                     f'height {height}, but on the chain the wallet now holds headers for the '
+                                     f'transaction is {now} (last saved judgement: {e})',
+                                     mut=(e[1] if e else 'genuine'), where='row_after_reorg')
+        return None
+
+    def judge_cached_result(txs, where):
+        """Every transaction handed back as verified by the cached path: the proof it was accepted with must
+        reproduce the root of the header the wallet holds at its height NOW (cache hits involve no fresh proof)."""
+        n_headers = len(W.headers)
+        for tx in txs.values():
+            run.probes['cached_path_judged'] += 1
+            if not tx.is_verified:
+                continue
+            if id(tx) not in proof_by_obj:
+                run.probes['cached_path_unjudged_object'] += 1
+                continue
+            served, epoch = proof_by_obj[id(tx)]
+            ok, reason = judge(tx, tx.height, n_headers, served)
+            if not ok:
+                kind = mut_of.get(hub_txid_of(tx), 'genuine')
+                stale = len(hub.reorgs) > epoch
+                htx = hub.txs.get(tx.id)
+                now = 'gone' if htx is None else ('in the mempool' if htx.height is None else
+                                                  f'at height {htx.height} position {htx.pos}')
+                run.violation('C08.verified_without_proof', f'{where}: request_transactions(cached=True) returned tx '
+                              f'{tx.id[:16]} as verified at height {tx.height} position {tx.position}, but the proof it was '
+                              f'accepted with does not reproduce the Merkle root of the header the wallet holds at '
+                              f'{tx.height} now ({reason}; local headers {n_headers}; reorganisations {hub.reorgs}; on the '
+                              f'hub the transaction is {now})', mut=kind,
+                              where='cache_after_reorg' if stale else 'cache')
+                return False
+        return True
+
+    async def do_cached_fetch(op):
+        """Ask for transactions of the top blocks through the ledger-wide verified-tx cache, the way resolve /
+        claim_search results are inflated (request_transactions(..., cached=True))."""
+        want = []
+        if op.get('again'):
+            for txid in cached_requested:
+                if txid in hub.txs and txid not in want:
+                    want.append(txid)
+        real = [b for b in hub.blocks if b.txids]
+        for top, f in op.get('picks', []):
+            if not real:
+                break
+            blk = real[max(0, len(real) - 1 - int(top))]
+            txid = blk.txids[min(len(blk.txids) - 1, int(float(f) * len(blk.txids)))]
+            if txid not in want:
+                want.append(txid)
+        if op.get('wallet_txs'):
+            for blk in real[-3:]:
+                for txid in blk.txids:
+                    if hub.txs[txid].wallet_related and txid not in want:
+                        want.append(txid)
+        if not want:
+            return
+        req = []
+        for txid in want:
+            tx = hub.txs[txid]
+            h = tx.height if tx.height is not None else hub._mempool_height(tx)
+            if tx.height is not None:
+                h += hub.height_shift.get(txid, 0) + hub.hist_shift.get(txid, 0)
+            req.append((txid, h))
+            if txid not in cached_requested:
+                cached_requested.append(txid)
+        before = {txid for txid, _ in req if ledger._tx_cache.get(txid) is not None and
+                  ledger._tx_cache.get(txid).tx is not None and ledger._tx_cache.get(txid).tx.is_verified}
+        run.probes['cached_path_fetch'] += 1
+        run.probes['cached_path_hit'] += len(before)
+        if op.get('again') and hub.reorgs:
+            run.probes['cached_path_refetched_after_reorg'] += 1
+        state['mode'] = 'direct'
+        got = {}
+        try:
+            async for txs in ledger.request_transactions(tuple(req), cached=True):
+                got.update(txs)
+        except (asyncio.CancelledError, SimBudget, SimIdle):
+            raise
+        except Exception as e:  # noqa
+            # an exception inside maybe_verify_transaction is reported by its observer; anything else (e.g. the
+            # cache bookkeeping tripping over a hub that served altered bytes under another id) reports nothing
+            # as verified: observation only
+            run.probes['cached_path_exception'] += 1
+            run.ev('cached', op['n'], 'exception', type(e).__name__)
+            return
+        finally:
+            state['mode'] = 'sync'
+        run.ev('cached', op['n'], len(req), len(before), sorted((t.id[:8], t.height, bool(t.is_verified))
+                                                                  for t in got.values()))
+        judge_cached_result(got, f"cached fetch op {op['n']}")
+
+    async def do_reorg(op):
+        if len(hub.blocks) < 2:
+            return
+        rng = run.rng('reorg', op['n'])
+        k = max(1, min(int(op.get('k', 1)), len(hub.blocks) - 1))
+        new_len = k + max(0, int(op.get('extra', 1)))
+        lowest = len(hub.blocks) - k
+        cached_verified = [c.tx for c in ledger._tx_cache.cache.values() if c.tx is not None and c.tx.is_verified]
+        if any(t.height == lowest for t in cached_verified):
+            run.probes['reorg_lowest_block_holds_cached_verified_tx'] += 1
+        had_headers = len(W.headers)
+        base_h, moves = hub.reorg(rng, k, new_len)
+        run.probes['reorg'] += 1
+        for txid, (old_h, new_h) in sorted(moves.items()):
+            if txid in hub.txs and hub.txs[txid].wallet_related:
+                run.probes['reorg_tx_to_mempool' if new_h is None else
+                           ('reorg_tx_same_height' if new_h == old_h else 'reorg_tx_moved')] += 1
+        run.ev('reorg', op['n'], base_h, k, new_len, sorted((t[:8], m) for t, m in moves.items()))
+        if op.get('notify', True) and had_headers > base_h:
+            # the hub announces the tip of the new branch; the product has to rewind by itself
+            run.probes['reorg_via_tip_notification'] += 1
+            n_fail = len(W.failures)
+            try:
+                await W.deliver_header(len(hub.blocks) - 1, 0.0)
+            except (asyncio.CancelledError, SimBudget, SimIdle):
+                raise
+            except Exception as e:  # noqa  (an observation: following a reorganisation is not what C08 states)
+                run.notes.append(f'reorg not followed: {type(e).__name__}: {e}'[:200])
+            if len(W.failures) > n_fail:
+                run.notes.append(f'reorg: {W.failure_text()}'[:200])
+            if headers_follow_hub():
+                run.probes['reorg_followed'] += 1
+        elif had_headers > base_h:
+            run.probes['reorg_via_get_headers'] += 1
 
     async def do_probe(op):
         rng = run.rng('probe', op['n'])
@@ -463,6 +689,7 @@ def execute(scenario, keep_trace=False):
         finally:
             state['mode'] = 'sync'
         if op.get('save') and got and not run.violations:
+            probe_saved.update(got)
             await W.db.save_transaction_io_batch(list(got.values()), 'not-a-wallet-address', b'\x00' * 20, '')
             check_rows(f"probe op {op['n']}")
 
@@ -498,9 +725,15 @@ def execute(scenario, keep_trace=False):
             except (asyncio.CancelledError, SimBudget, SimIdle):
                 raise
             except Exception as e:  # noqa
+                if hub.reorgs:      # following a reorganisation is not what C08 states: observation only
+                    run.notes.append(f'reorg not followed: {type(e).__name__}: {e}'[:200])
+                    return True
                 run.violation('C08.exception', f'honest header {before} (local headers {before}) was refused: '
                               f'{type(e).__name__}: {e}', exc=type(e).__name__, mut='headers')
                 return False
+            if len(W.headers) <= before and hub.reorgs:
+                run.notes.append(f'reorg not followed: header {before} not connected')
+                return True
             if len(W.headers) <= before:
                 txt = W.failure_text() if len(W.failures) > n_fail else 'no exception'
                 run.violation('C08.exception', f'honest header {before} was not connected to the local chain of '
@@ -579,8 +812,22 @@ def execute(scenario, keep_trace=False):
                     return
             elif kind == 'headers':
                 hdr_ok = True
-                if not await deliver_headers():
+                if hub.reorgs and not headers_follow_hub() and len(W.headers) >= len(hub.blocks) and hub.blocks:
+                    # local chain as long as the hub's but on an abandoned branch: announce the current tip
+                    try:
+                        await W.deliver_header(len(hub.blocks) - 1, 0.0)
+                    except (asyncio.CancelledError, SimBudget, SimIdle):
+                        raise
+                    except Exception as e:  # noqa
+                        run.notes.append(f'reorg not followed: {type(e).__name__}: {e}'[:200])
+                elif not await deliver_headers():
                     return
+                if hub.reorgs and headers_follow_hub():
+                    run.probes['reorg_followed'] += 1
+            elif kind == 'cached_fetch':
+                await do_cached_fetch(op)
+            elif kind == 'reorg':
+                await do_reorg(op)
             elif kind == 'stage':
                 start_wallet()
                 base.do_stage_notifications(W, run, op, sent_statuses)
